@@ -404,7 +404,9 @@ func (s *vfc14Server) readLoop(conn *vfConn) {
 func (s *vfc14Server) busy() bool {
 	s.mu.Lock()
 	defer s.mu.Unlock()
-	return !s.responderDone && (s.stalling || s.handled < len(s.reqs))
+	// (a stalling server is not busy: it waits for the client, whose stalled call has to return by itself when
+	// Net.ReadTimeout is over; if it never does and nothing else moves, that is a hang like any other)
+	return !s.responderDone && !s.stalling && s.handled < len(s.reqs)
 }
 
 func (s *vfc14Server) received() int {
